@@ -118,6 +118,33 @@ type Conn struct {
 	closed chan struct{}
 	once   sync.Once
 	dl     atomic.Value // time.Time read deadline
+	reads  atomic.Int64 // number of ReadMsg calls started
+	inj    atomic.Int64 // number of datagrams injected with Inject
+}
+
+// Inject hands one datagram to the endpoint's reader and waits until the reader has come back for the next
+// one, i.e. until the datagram has been completely processed by the single goroutine reading this
+// endpoint.  Only meaningful when nothing else delivers to this endpoint.
+func (c *Conn) Inject(b []byte) bool {
+	k := c.inj.Add(1)
+	select {
+	case c.in <- append([]byte(nil), b...):
+	case <-c.closed:
+		return false
+	}
+	deadline := time.Now().Add(10 * time.Second)
+	for c.reads.Load() < k+1 {
+		select {
+		case <-c.closed:
+			return false
+		default:
+		}
+		if time.Now().After(deadline) {
+			return false
+		}
+		time.Sleep(10 * time.Microsecond)
+	}
+	return true
 }
 
 func (c *Conn) deliver(b []byte) {
@@ -130,6 +157,7 @@ func (c *Conn) deliver(b []byte) {
 
 // ReadMsg implements transport.MsgReader.
 func (c *Conn) ReadMsg(b []byte) (int, error) {
+	c.reads.Add(1)
 	var timer <-chan time.Time
 	if d, ok := c.dl.Load().(time.Time); ok && !d.IsZero() {
 		w := time.Until(d)
